@@ -10,6 +10,7 @@ import (
 	"os"
 	"slices"
 	"strings"
+	"sync"
 
 	"golang.org/x/tools/go/ssa"
 )
@@ -83,7 +84,9 @@ type frame struct {
 	caller           *frame
 	fn               *ssa.Function
 	block, prevBlock *ssa.BasicBlock
-	env              map[ssa.Value]value // dynamic values of SSA variables
+	env              []value // dynamic values of SSA variables, indexed by info.idx
+	set              []bool
+	info             *fnInfo
 	locals           []value
 	defers           *deferred
 	result           value
@@ -111,8 +114,10 @@ func (fr *frame) get(key ssa.Value) value {
 			return r.addr
 		}
 	}
-	if r, ok := fr.env[key]; ok {
-		return r
+	if i, ok := fr.info.idx[key]; ok {
+		if r := fr.env[i]; r != nil || fr.set[i] {
+			return r
+		}
 	}
 	panic(fmt.Sprintf("get: no value for %T: %v in %s", key, key.Name(), fr.fn))
 }
@@ -178,38 +183,38 @@ func visitInstr(fr *frame, instr ssa.Instruction) continuation {
 		// no-op
 
 	case *ssa.UnOp:
-		fr.env[instr] = fr.unop(instr, fr.get(instr.X))
+		fr.setv(instr, fr.unop(instr, fr.get(instr.X)))
 
 	case *ssa.BinOp:
 		if instr.Op == token.SHL || instr.Op == token.SHR {
 			fr.shiftCountSigned = isSignedType(instr.Y.Type())
 		}
-		fr.env[instr] = fr.binop(instr.Op, instr.X.Type(), fr.get(instr.X), fr.get(instr.Y))
+		fr.setv(instr, fr.binop(instr.Op, instr.X.Type(), fr.get(instr.X), fr.get(instr.Y)))
 
 	case *ssa.Call:
 		fn, args := prepareCall(fr, &instr.Call)
-		fr.env[instr] = call(fr.i, fr, instr.Pos(), fn, args)
+		fr.setv(instr, call(fr.i, fr, instr.Pos(), fn, args))
 
 	case *ssa.ChangeInterface:
-		fr.env[instr] = fr.get(instr.X)
+		fr.setv(instr, fr.get(instr.X))
 
 	case *ssa.ChangeType:
-		fr.env[instr] = fr.get(instr.X) // (can't fail)
+		fr.setv(instr, fr.get(instr.X)) // (can't fail)
 
 	case *ssa.Convert:
-		fr.env[instr] = fr.conv(instr.Type(), instr.X.Type(), fr.get(instr.X))
+		fr.setv(instr, fr.conv(instr.Type(), instr.X.Type(), fr.get(instr.X)))
 
 	case *ssa.SliceToArrayPointer:
-		fr.env[instr] = in.sliceToArrayPointer(instr.Type(), instr.X.Type(), fr.get(instr.X))
+		fr.setv(instr, in.sliceToArrayPointer(instr.Type(), instr.X.Type(), fr.get(instr.X)))
 
 	case *ssa.MakeInterface:
-		fr.env[instr] = iface{t: instr.X.Type(), v: fr.get(instr.X)}
+		fr.setv(instr, iface{t: instr.X.Type(), v: fr.get(instr.X)})
 
 	case *ssa.Extract:
-		fr.env[instr] = fr.get(instr.Tuple).(tuple)[instr.Index]
+		fr.setv(instr, fr.get(instr.Tuple).(tuple)[instr.Index])
 
 	case *ssa.Slice:
-		fr.env[instr] = fr.slice(instr.X.Type(), fr.get(instr.X), fr.get(instr.Low), fr.get(instr.High), fr.get(instr.Max))
+		fr.setv(instr, fr.slice(instr.X.Type(), fr.get(instr.X), fr.get(instr.Low), fr.get(instr.High), fr.get(instr.Max)))
 
 	case *ssa.Return:
 		switch len(instr.Results) {
@@ -268,17 +273,17 @@ func visitInstr(fr *frame, instr ssa.Instruction) continuation {
 		in.spawn(fr, fn, args, instr.Pos())
 
 	case *ssa.MakeChan:
-		fr.env[instr] = in.makeChan(int(fr.concInt(fr.get(instr.Size))), instr.Type().Underlying().(*types.Chan).Elem())
+		fr.setv(instr, in.makeChan(int(fr.concInt(fr.get(instr.Size))), instr.Type().Underlying().(*types.Chan).Elem()))
 
 	case *ssa.Alloc:
 		var addr *value
 		if instr.Heap {
 			// new
 			addr = new(value)
-			fr.env[instr] = addr
+			fr.setv(instr, addr)
 		} else {
 			// local
-			addr = fr.env[instr].(*value)
+			addr = fr.getv(instr).(*value)
 		}
 		if os.Getenv("GOSYM_DEBUG") == "alloc" {
 			if at, ok := deref(instr.Type()).Underlying().(*types.Array); ok && at.Len() > 1000 {
@@ -304,26 +309,26 @@ func visitInstr(fr *frame, instr ssa.Instruction) continuation {
 		for i := int64(0); i < l; i++ {
 			slice[i] = zero(tElt)
 		}
-		fr.env[instr] = slice[:l]
+		fr.setv(instr, slice[:l])
 
 	case *ssa.MakeMap:
-		fr.env[instr] = makeMap(instr.Type().Underlying().(*types.Map).Key())
+		fr.setv(instr, makeMap(instr.Type().Underlying().(*types.Map).Key()))
 
 	case *ssa.Range:
-		fr.env[instr] = fr.rangeIter(fr.get(instr.X), instr.X.Type())
+		fr.setv(instr, fr.rangeIter(fr.get(instr.X), instr.X.Type()))
 
 	case *ssa.Next:
-		fr.env[instr] = fr.get(instr.Iter).(iter).next(fr)
+		fr.setv(instr, fr.get(instr.Iter).(iter).next(fr))
 
 	case *ssa.FieldAddr:
 		p := fr.get(instr.X).(*value)
 		if p == nil {
 			in.rtPanic("invalid memory address or nil pointer dereference")
 		}
-		fr.env[instr] = &(*p).(structure)[instr.Field]
+		fr.setv(instr, &(*p).(structure)[instr.Field])
 
 	case *ssa.Field:
-		fr.env[instr] = fr.get(instr.X).(structure)[instr.Field]
+		fr.setv(instr, fr.get(instr.X).(structure)[instr.Field])
 
 	case *ssa.IndexAddr:
 		x := fr.get(instr.X)
@@ -346,7 +351,7 @@ func visitInstr(fr *frame, instr ssa.Instruction) continuation {
 				in.elemOwner[ep] = base[:cap(base)]
 			}
 		}
-		fr.env[instr] = ea
+		fr.setv(instr, ea)
 
 	case *ssa.Index:
 		x := fr.get(instr.X)
@@ -354,29 +359,29 @@ func visitInstr(fr *frame, instr ssa.Instruction) continuation {
 		switch x := x.(type) {
 		case array:
 			p := fr.elemAddr(x, idx, instr.Index.Type(), instr.Type())
-			fr.env[instr] = copyVal(fr.loadPtr(instr.Type(), p))
+			fr.setv(instr, copyVal(fr.loadPtr(instr.Type(), p)))
 		case string:
 			if it, ok := idx.(*Term); ok {
 				bs := strBytes(x)
 				it = fr.boundsCheck(it, instr.Index.Type(), len(bs))
-				fr.env[instr] = in.selectElem(types.Typ[types.Uint8], bs, it)
+				fr.setv(instr, in.selectElem(types.Typ[types.Uint8], bs, it))
 			} else {
 				k := asInt64(idx)
 				if k < 0 || k >= int64(len(x)) {
 					in.rtPanic(fmt.Sprintf("index out of range [%d] with length %d", k, len(x)))
 				}
-				fr.env[instr] = x[k]
+				fr.setv(instr, x[k])
 			}
 		case symstr:
 			if it, ok := idx.(*Term); ok {
 				it = fr.boundsCheck(it, instr.Index.Type(), len(x))
-				fr.env[instr] = in.selectElem(types.Typ[types.Uint8], []value(x), it)
+				fr.setv(instr, in.selectElem(types.Typ[types.Uint8], []value(x), it))
 			} else {
 				k := asInt64(idx)
 				if k < 0 || k >= int64(len(x)) {
 					in.rtPanic(fmt.Sprintf("index out of range [%d] with length %d", k, len(x)))
 				}
-				fr.env[instr] = x[k]
+				fr.setv(instr, x[k])
 			}
 		default:
 			panic(fmt.Sprintf("unexpected x type in Index: %T", x))
@@ -391,16 +396,16 @@ func visitInstr(fr *frame, instr ssa.Instruction) continuation {
 			bs := strBytes(xs)
 			if it, ok := idx.(*Term); ok {
 				it = fr.boundsCheck(it, instr.Index.Type(), len(bs))
-				fr.env[instr] = in.selectElem(types.Typ[types.Uint8], bs, it)
+				fr.setv(instr, in.selectElem(types.Typ[types.Uint8], bs, it))
 			} else {
 				k := asInt64(idx)
 				if k < 0 || k >= int64(len(bs)) {
 					in.rtPanic(fmt.Sprintf("index out of range [%d] with length %d", k, len(bs)))
 				}
-				fr.env[instr] = bs[k]
+				fr.setv(instr, bs[k])
 			}
 		default:
-			fr.env[instr] = fr.lookup(instr, x, fr.get(instr.Index))
+			fr.setv(instr, fr.lookup(instr, x, fr.get(instr.Index)))
 		}
 
 	case *ssa.MapUpdate:
@@ -411,20 +416,20 @@ func visitInstr(fr *frame, instr ssa.Instruction) continuation {
 		m.insert(fr, fr.get(instr.Key), copyVal(fr.get(instr.Value)))
 
 	case *ssa.TypeAssert:
-		fr.env[instr] = fr.typeAssert(instr, fr.get(instr.X).(iface))
+		fr.setv(instr, fr.typeAssert(instr, fr.get(instr.X).(iface)))
 
 	case *ssa.MakeClosure:
 		var bindings []value
 		for _, binding := range instr.Bindings {
 			bindings = append(bindings, fr.get(binding))
 		}
-		fr.env[instr] = &closure{instr.Fn.(*ssa.Function), bindings}
+		fr.setv(instr, &closure{instr.Fn.(*ssa.Function), bindings})
 
 	case *ssa.Phi:
 		panic("unreachable: phis are processed at block entry")
 
 	case *ssa.Select:
-		fr.env[instr] = fr.doSelect(instr)
+		fr.setv(instr, fr.doSelect(instr))
 
 	default:
 		panic(fmt.Sprintf("unexpected instruction: %T", instr))
@@ -590,18 +595,20 @@ func callSSA(i *interpreter, caller *frame, callpos token.Pos, fn *ssa.Function,
 		panic("interp requires ssa.BuilderMode to include InstantiateGenerics to execute generics")
 	}
 
-	fr.env = make(map[ssa.Value]value, 16)
+	fr.info = i.infoFor(fn)
+	fr.env = make([]value, fr.info.n)
+	fr.set = make([]bool, fr.info.n)
 	fr.block = fn.Blocks[0]
 	fr.locals = make([]value, len(fn.Locals))
 	for i, l := range fn.Locals {
 		fr.locals[i] = zero(deref(l.Type()))
-		fr.env[l] = &fr.locals[i]
+		fr.setv(l, &fr.locals[i])
 	}
 	for i, p := range fn.Params {
-		fr.env[p] = args[i]
+		fr.setv(p, args[i])
 	}
 	for i, fv := range fn.FreeVars {
-		fr.env[fv] = env[i]
+		fr.setv(fv, env[i])
 	}
 	for fr.block != nil {
 		runFrame(fr)
@@ -696,7 +703,7 @@ func executePhis(fr *frame) []ssa.Instruction {
 			fr.phitemps = append(fr.phitemps, fr.get(phi.Edges[predIndex]))
 		}
 		for i, phi := range phis {
-			fr.env[phi.(*ssa.Phi)] = fr.phitemps[i]
+			fr.setv(phi.(*ssa.Phi), fr.phitemps[i])
 		}
 	}
 	return nonPhis
@@ -761,4 +768,53 @@ func (in *interpreter) findMethod(T types.Type, name string) *ssa.Function {
 		return nil
 	}
 	return in.prog.MethodValue(sel)
+}
+
+// fnInfo numbers the SSA values of a function (shared, built once per function).
+type fnInfo struct {
+	idx map[ssa.Value]int
+	n   int
+}
+
+var fnInfos sync.Map // *ssa.Function -> *fnInfo
+
+func (in *interpreter) infoFor(fn *ssa.Function) *fnInfo {
+	if v, ok := fnInfos.Load(fn); ok {
+		return v.(*fnInfo)
+	}
+	info := &fnInfo{idx: make(map[ssa.Value]int)}
+	add := func(v ssa.Value) {
+		if _, ok := info.idx[v]; !ok {
+			info.idx[v] = info.n
+			info.n++
+		}
+	}
+	for _, p := range fn.Params {
+		add(p)
+	}
+	for _, fv := range fn.FreeVars {
+		add(fv)
+	}
+	for _, l := range fn.Locals {
+		add(l)
+	}
+	for _, b := range fn.Blocks {
+		for _, instr := range b.Instrs {
+			if v, ok := instr.(ssa.Value); ok {
+				add(v)
+			}
+		}
+	}
+	act, _ := fnInfos.LoadOrStore(fn, info)
+	return act.(*fnInfo)
+}
+
+func (fr *frame) setv(k ssa.Value, v value) {
+	i := fr.info.idx[k]
+	fr.env[i] = v
+	fr.set[i] = true
+}
+
+func (fr *frame) getv(k ssa.Value) value {
+	return fr.env[fr.info.idx[k]]
 }
